@@ -41,7 +41,9 @@ def build_pinned(ps, w, init):
     pins = []
     for v in w.statevars:
         name = str(v)
-        if name.startswith("dir_") or name.startswith("fs_"):
+        if name in ("fs_separate_file_systems", "env_debug_logging"):
+            x = init.get(name, False)
+        elif name.startswith("dir_") or name.startswith("fs_"):
             x = init.get(name, True)
         elif name.startswith("bind_") or name.startswith("meta_"):
             x = init.get(name, -1)
@@ -138,6 +140,25 @@ def run_schedule(ps, w, init, program, bound, allowed, pinned=None, with_fault=F
             why = "results match a sequential order but the final state does not" if same_res else \
                 "no sequential order (nor the in-progress rejection) produces these results"
             bad.append(("LIN:not-linearizable", why, res))
+        if with_fault:
+            # a call that reported success achieved its effect, whatever the call that failed cleaned up
+            for c, r in zip(program, res):
+                if r[0] == "ok" and isinstance(c, step.StoreObj) and not any(
+                        isinstance(d, step.Delete) and d.i == c.i for d in program):
+                    try:
+                        st = s.retrieve_object(w.pids[c.i])
+                        try:
+                            okb = st.read() == w.contents[c.k]
+                        finally:
+                            st.close()
+                        if not okb:
+                            bad.append(("C13:reported-success-but-wrong-bytes-are-served", w.pids[c.i]))
+                    except Exception as e:   # noqa
+                        bad.append(("C13:reported-success-but-the-pid-is-not-retrievable", type(e).__name__))
+        after = (opts or {}).get("after")
+        if after is not None:
+            for b in after(w, s):
+                bad.append(b)
         for si in insts:
             for p in w.instance_problems(si):
                 if p[0] == "identifier-left-locked":
